@@ -174,6 +174,7 @@ def make_frames(r, n: int, frame_id: str) -> List[FrameGroundTruth]:
                 if r.random() < 0.4:
                     o.state.orientation = -o.state.orientation
             objs.append(o)
+        r.shuffle(objs)  # annotation order is not stable between frames
         frames.append(FrameGroundTruth(unix_time=t, frame_name=str(k), objects=objs, transforms=[O.ego2map(ep, ey)]))
     return frames
 
